@@ -205,7 +205,17 @@ macro_rules! nary {
 /// node kinds generic in the payload type
 fn build_generic<T: Payload>(rig: &Rig, spec: &NodeSpec) -> Option<Reference<dyn Getter<T, E>>> {
     let b = base(&spec.kind);
-    let clock = || dyn_time(rig.ck[spec.clock % NC].clock());
+    // clock index < 100: one of the scripted clocks; 100 + k: the timestamp of f32 leaf k read through
+    // the crate's TimeGetterFromGetter ("expire relative to the newest reading of that sensor") - with
+    // shared leaf References the clock then reads the very object the node may be reading
+    let clock = || -> Reference<dyn TimeGetter<E>> {
+        if spec.clock >= 100 {
+            let leaf = <f32 as Payload>::slot(rig, &format!("f{}", (spec.clock - 100) % NF)).expect("leaf");
+            dyn_time(TimeGetterFromGetter::<f32, dyn Getter<f32, E>, E>::new(leaf))
+        } else {
+            dyn_time(rig.ck[spec.clock % NC].clock())
+        }
+    };
     Some(match b {
         "latest" => {
             let v: Vec<_> = spec.ins.iter().filter_map(|n| T::slot(rig, n)).collect();
@@ -817,7 +827,15 @@ pub fn execute(plan: &Plan, ctx: &mut Ctx) {
                     }
                 })
                 .collect();
-            let clock = script.ck[spec.clock % NC];
+            let clock: Result<i64, Er> = if spec.clock >= 100 {
+                match script.f[(spec.clock - 100) % NF] {
+                    Out::Some(t, _) => Ok(t),
+                    Out::None => Err(Er::FromNone),
+                    Out::Err(e) => Err(e),
+                }
+            } else {
+                script.ck[spec.clock % NC]
+            };
             // coverage cell: kind, arity, category tuple, timestamp order class of first two
             let mut parts: Vec<i64> = vec![ni as i64 * 0 + spec.ins.len() as i64];
             for o in &ins {
@@ -1013,7 +1031,17 @@ fn random_node(rng: &mut Rng, kind: &str, idx: usize, specs: &[NodeSpec], leaf_b
         },
         _ => 0,
     };
-    NodeSpec { kind: kind.to_string(), ins, clock: rng.below(NC as u64) as usize, param }
+    // one expirer / substitute-value node in eight takes its time from a sensor's own timestamps:
+    // preferably the sensor it reads
+    let clock = if matches!(b, "expirer" | "n2v") && rng.chance(0.125) {
+        match ins.first() {
+            Some(n) if n.starts_with('f') && rng.chance(0.7) => 100 + n[1..].parse::<usize>().unwrap_or(0),
+            _ => 100 + rng.below(NF as u64) as usize,
+        }
+    } else {
+        rng.below(NC as u64) as usize
+    };
+    NodeSpec { kind: kind.to_string(), ins, clock, param }
 }
 
 /// Number of enumerated runs at the start of every C02 batch: for each of the three n-ary
@@ -1167,6 +1195,16 @@ fn gen_c02_enum3(prop: &str, rng: &mut Rng, seed: u64, run: u64, k: u64) -> Plan
     plan
 }
 
+/// leaf values of the random stateless plans: the moderate pool, and now and then an f32 that is special
+/// (signed zero, infinities, NaN, the largest and smallest normal, a subnormal) - "values random"
+fn leaf_value(rng: &mut Rng) -> f32 {
+    if rng.chance(0.04) {
+        *rng.pick(&[-0.0f32, f32::INFINITY, f32::NEG_INFINITY, f32::NAN, f32::MAX, -f32::MAX, f32::MIN_POSITIVE, 1e-42])
+    } else {
+        rng.moderate_f32()
+    }
+}
+
 pub fn gen_c02(prop: &str, tier: Tier, rng: &mut Rng, seed: u64, run: u64) -> Plan {
     if run < C02_ENUM && prop == "C02" {
         return gen_c02_enumerated(prop, rng, seed, run);
@@ -1267,7 +1305,7 @@ pub fn gen_c02(prop: &str, tier: Tier, rng: &mut Rng, seed: u64, run: u64) -> Pl
                     if faulty {
                         if rng.chance(0.5) { plan.push("LFN", &[i]) } else { plan.push("LFE", &[i, rng.range(1, 3)]) }
                     } else {
-                        plan.push("LF", &[i, t, fb(rng.moderate_f32())]);
+                        plan.push("LF", &[i, t, fb(leaf_value(rng))]);
                     }
                 }
                 5..=7 => {
@@ -1285,7 +1323,7 @@ pub fn gen_c02(prop: &str, tier: Tier, rng: &mut Rng, seed: u64, run: u64) -> Pl
                     } else if prop == "C19ill" && rng.chance(0.5) {
                         plan.push("LQ", &[i, t, fb(rng.moderate_f32()), rng.range(-2, 2), rng.range(-2, 2)]);
                     } else {
-                        plan.push("LQ", &[i, t, fb(rng.moderate_f32())]);
+                        plan.push("LQ", &[i, t, fb(leaf_value(rng))]);
                     }
                 }
             }
